@@ -23,10 +23,11 @@ REPLAY_LAYOUTS = ["recursive"]
 
 class Entry(object):
     def __init__(self, name, functions, shapes, build, pre="", bounds="", toy=False, abstract=None, types=None, int_bound=8, max_paths=400,
-                 budget_s=120, info=None):
+                 budget_s=120, info=None, layout="recursive", abstract_prefixes=()):
         self.name, self.functions, self.shapes, self.build = name, functions, shapes, build
         self.pre, self.bounds, self.toy = pre, bounds, toy
         self.abstract, self.types, self.int_bound, self.max_paths, self.budget_s = abstract, types, int_bound, max_paths, budget_s
+        self.layout, self.abstract_prefixes = layout, tuple(abstract_prefixes)
         self.info = info      # Entry without the validate precondition: its panics are listed as unreachable through StarkProof::verify
 
 
@@ -40,7 +41,8 @@ def protected(h, f):
 
 def run_entry(en, tier):
     """returns list of obligations"""
-    w = world("recursive", toy=en.toy)
+    w = world(en.layout, toy=en.toy)
+    rl = [en.layout]
     t0 = time.time()
     sites = {}          # (file, line) -> list of (shape, ex, outcome, hold)
     n_paths, n_shapes, unb = 0, 0, {}
@@ -53,7 +55,7 @@ def run_entry(en, tier):
         types = {}
         if en.types:
             types = en.types(w)
-        ex = Exec(w, types=types, abstract=en.abstract(w) if en.abstract else None, int_bound=en.int_bound)
+        ex = Exec(w, types=types, abstract=en.abstract(w) if en.abstract else None, int_bound=en.int_bound, abstract_prefixes=en.abstract_prefixes)
         hold = {}
         def entry(ex, shape=shape, hold=hold):
             h = H(ex)
@@ -100,11 +102,11 @@ def run_entry(en, tier):
                 obs.append(finish(ob, "inconclusive", st, detail="panic `%s` feasible for shape %s but no replay request could be built: %r" % (o.msg, shape, e)))
                 done = True
                 break
-            ans = replay(reqs, REPLAY_LAYOUTS)
+            ans = replay(reqs, rl)
             main = ans[0]
             repair_log = []
             if "err" in main:
-                reqs[0], main, repair_log = sxh.repair_replay(reqs[0], REPLAY_LAYOUTS)
+                reqs[0], main, repair_log = sxh.repair_replay(reqs[0], rl)
                 ans[0] = main
             same_site = "panic" in main and (main.get("file") is None or not str(main.get("file", "")).startswith("crates/") and "/crates/" not in str(main.get("file", ""))
                                              or (str(file).endswith(_tail(main.get("file"))) and int(main.get("line", -1)) == int(line)))
@@ -514,10 +516,12 @@ def _run_one(args):
 
 def run(tier, only=None):
     import c18deep
+    import c18layout
     import multiprocessing as mp
-    todo = [en for en in entries(tier) + c18deep.entries(tier) if not only or en.name in only]
+    todo = [en for en in entries(tier) + c18deep.entries(tier) + c18layout.entries(tier) if not only or en.name in only]
     try:
-        common.replay_binary(REPLAY_LAYOUTS)       # build once, before forking
+        for lay_ in sorted(set(en.layout for en in todo)):
+            common.replay_binary([lay_])       # build once per layout, before forking
     except common.ReplayUnavailable:
         pass
     global _TODO
